@@ -298,15 +298,33 @@ ExactWhenStrict == (Done /\ Mode = "flags") =>
     \A w \in Wants : w # <<>> =>
         ((w \in row[StrictF]) <=> (got = w \/ Common(RemovePrefixes(StripAnsi(got))) = Common(RemovePrefixes(StripAnsi(w)))))
 
-\* switching a leniency on never loses a match
+\* switching a leniency on never loses a match.
+\* Known exceptions of the code (DESIGN.md section 6), carved out here and present in the
+\* *Strict variants, which TLC must refute (vacuity control):
+\*   F13  ELLIPSIS with NORMALIZE_REPR when the got itself contains "..."
+\*   F14  NORMALIZE_WHITESPACE with NORMALIZE_REPR when the want is quoted and has blanks
+\*        directly inside the quotes
+\*   F8   accepting <BLANKLINE> when the got contains the literal marker
+\*   F15  accepting <BLANKLINE> when the marker touches a carriage return in the want
 Leniencies == {"ELLIPSIS", "NORMALIZE_WHITESPACE", "IGNORE_WHITESPACE", "NORMALIZE_REPR"}
 HasBL(t) == \E i \in 1..Len(t) : t[i] = "BL"
+InnerEdgeWs(w) == LET x == LStrip(RStrip(Expand(w)))
+                      n == Len(x)
+                  IN /\ n >= 2 /\ x[1] \in Quotes /\ x[n] = x[1]
+                     /\ SubSeq(x, 2, n-1) # LStrip(RStrip(SubSeq(x, 2, n-1)))
+BLTouchesCR(w) == \E i \in 1..(Len(w)-1) : \/ (w[i] = "BL" /\ w[i+1] = "CR")
+                                           \/ (w[i] = "CR" /\ w[i+1] = "BL")
+Carve(F, l) == IF l = "ELLIPSIS" /\ "NORMALIZE_REPR" \in F /\ HasEllT(got) THEN Wants
+               ELSE IF l = "NORMALIZE_WHITESPACE" /\ "NORMALIZE_REPR" \in F THEN {w \in Wants : InnerEdgeWs(w)}
+               ELSE {}
 MonotonePositive == (Done /\ Mode = "flags") =>
+    \A F \in AllFlagSets : \A l \in Leniencies : (row[F] \ Carve(F, l)) \subseteq row[F \cup {l}]
+MonotonePositiveStrict == (Done /\ Mode = "flags") =>      \* expected to FAIL (F13, F14)
     \A F \in AllFlagSets : \A l \in Leniencies : row[F] \subseteq row[F \cup {l}]
-\* accepting <BLANKLINE> is the leniency; F8: only guaranteed when got has no literal marker
 MonotoneBlankline == (Done /\ Mode = "flags" /\ ~HasBL(got)) =>
-    \A F \in AllFlagSets : row[F \cup {"DONT_ACCEPT_BLANKLINE"}] \subseteq row[F \ {"DONT_ACCEPT_BLANKLINE"}]
-MonotoneBlanklineStrict == (Done /\ Mode = "flags") =>      \* expected to FAIL (F8) - vacuity control
+    \A F \in AllFlagSets : {w \in row[F \cup {"DONT_ACCEPT_BLANKLINE"}] : ~BLTouchesCR(w)}
+                                \subseteq row[F \ {"DONT_ACCEPT_BLANKLINE"}]
+MonotoneBlanklineStrict == (Done /\ Mode = "flags") =>      \* expected to FAIL (F8, F15)
     \A F \in AllFlagSets : row[F \cup {"DONT_ACCEPT_BLANKLINE"}] \subseteq row[F \ {"DONT_ACCEPT_BLANKLINE"}]
 
 \* a differing non-whitespace character without wildcard never matches:
@@ -317,8 +335,8 @@ CoreWant(t, F) == LET t1 == RemovePrefixes(StripAnsi(t))
                       t2 == IF "DONT_ACCEPT_BLANKLINE" \notin F THEN RemoveBL(t1, 1) ELSE t1
                       v == DeleteWs(Visible(RStrip(StripTrailing(t2)), 1, <<>>))
                   IN Without(v, Quotes)
-NoWildcard(w) == ~HasEll(w)
-DifferentCoreNeverMatches == (Done /\ Mode = "flags" /\ ~HasEll(got)) =>
+NoWildcard(w) == ~HasEllT(w)
+DifferentCoreNeverMatches == (Done /\ Mode = "flags" /\ ~HasEllT(got)) =>
     \A F \in AllFlagSets : \A w \in row[F] :
         (w # <<>> /\ w # got /\ NoWildcard(w)) => Core(got, F) = CoreWant(w, F)
 
